@@ -127,9 +127,24 @@ def execute(case):
         for b in check_open(_open_logs[key], fname, im, rpc):
             fails.append({"sig": {"kind": "open"}, "detail": f"{tc} {L}x{P} rpc={rpc}: {b}", "case": {**case, "ops": []}})
     n = n_loaded = n_agree = n_skip = 0
-    for op in case["ops"]:
+    work = [("", da, op) for op in case["ops"]]
+    if case.get("check_open"):
+        # copies of the lazy object (deep copy, copy module, pickle round trip) stand for the same image opened with the
+        # same records_per_chunk: their loads obey the same bounds
+        import copy
+        import pickle
+
+        reps = [["isel", r, None] for r in c02.ints(L) + [["s", None, None, None], ["s", 0, 1, None], ["s", L - 1, None, None], ["s", None, None, 2]]]
+        for how, clone in (("deep copy", lambda: da.copy(deep=True)), ("copy.deepcopy", lambda: copy.deepcopy(da)), ("pickle round trip", lambda: pickle.loads(pickle.dumps(da))), ("shallow copy", lambda: da.copy(deep=False))):
+            try:
+                twin_da = clone()
+            except Exception as e:
+                fails.append({"sig": {"kind": "copy-raises", "how": how}, "detail": f"{tc} {L}x{P} rpc={rpc}: {how} raises {type(e).__name__}: {str(e)[:80]}", "case": {**case, "ops": []}})
+                continue
+            work += [(how, twin_da, op) for op in reps]
+    for how, arr, op in work:
         try:
-            sel = c02.apply(da, op)
+            sel = c02.apply(arr, op)
         except Exception:
             continue
         # the lines this lazy object stands for, read off its in-memory line-number coordinate
@@ -156,9 +171,9 @@ def execute(case):
         # an empty column selection may legitimately skip or perform the row reads
         bad = check_load(list(vfs.LOG), fname, im, rpc, rows)
         if bad:
-            sig = {"kind": bad[0].split(" ")[0] + ("-empty" if not rows else "")}
+            sig = {"kind": bad[0].split(" ")[0] + ("-empty" if not rows else "") + (f" ({how})" if how else "")}
             if core.jkey(sig) not in {core.jkey(f["sig"]) for f in fails}:
-                fails.append({"sig": sig, "detail": f"{tc} {L}x{P} rpc={rpc} op={op}: {'; '.join(bad[:3])}", "case": {"type": tc, "L": L, "P": P, "rpc": rpc, "ops": [op]}})
+                fails.append({"sig": sig, "detail": f"{tc} {L}x{P} rpc={rpc} op={op}{' on a ' + how if how else ''}: {'; '.join(bad[:3])}", "case": {"type": tc, "L": L, "P": P, "rpc": rpc, "ops": [op]}})
         n_agree += agree
     return {"ok": not fails, "failures": fails, "outcome": "ok" if not fails else fails[0]["sig"]["kind"], "nontrivial": n_loaded > 0, "n": n, "n_agree": n_agree, "n_skip": n_skip}
 
@@ -238,7 +253,7 @@ def plan(tier):
 def run(res, tier, seed):
     res.rule = (
         "rows alphabet of C02 (all ints, slices, int arrays len<=2, masks) x 4 column representatives, plus every pointwise (vectorised) pair" " and triple of lines, x rpc 1..L+1 x L 1..4|6 x both types;"
-        " each load's mcfs:// event log is checked against byte spans computed by independent arithmetic; plus one"
+        " each load's mcfs:// event log is checked against byte spans computed by independent arithmetic; the same bounds for loads from deep copies / pickle round trips of the lazy object; plus one"
         " open_alos2 metadata-pass log per (type, L, P, rpc); plus the same loads on an image opened through an index cache that was"
         " written and first used with a different rpc (groups are those of the *requested* rpc); plus 20 selections on realistically sized"
         " images (640x1000 IU2, 320x600 C*8 at rpc {default, 64, 1000}; 2500x8 IU2, 2100x3 C*8 at rpc {default, 100, 1000, 2048}; 1300x40000 IU2 (104 MB) at rpc {default, 64, 100}, 300x40000 C*8 at rpc 7, 5120x4 IU2). A batch is non-trivial if at least one selection loads >= 1 line."
